@@ -40,7 +40,9 @@ def place(lb, ub, t):
     return min(ub, max(lb, lb + t * (ub - lb)))
 
 
-tpos = st.one_of(st.sampled_from([0.0, 1.0, 0.5]), st.floats(0.0, 1.0))
+tpos = st.one_of(st.sampled_from([0.0, 1.0, 0.5]), st.floats(0.0, 1.0),
+                 # a hair inside the bounds: where a missing clip shows only through rounding
+                 st.sampled_from([1e-16, 1e-12, 1e-9, 1.0 - 1e-16, 1.0 - 1e-12, 1.0 - 1e-9]))
 
 
 @st.composite
@@ -48,12 +50,18 @@ def op_cases(draw):
     n = draw(st.integers(1, 5))
     boxes = [draw(box()) for _ in range(n)]
     edge = draw(st.integers(0, 2)) == 0      # parents sitting on the bounds: where only rounding can push a child out
-    p1 = [place(b[0], b[1], draw(st.sampled_from([0.0, 1.0])) if edge else draw(tpos)) for b in boxes]
+    p1 = [place(b[0], b[1], draw(st.sampled_from([0.0, 1.0, 1e-16, 1.0 - 1e-16, 1e-12, 1.0 - 1e-12])) if edge
+                else draw(tpos)) for b in boxes]
     p2 = []
     rel = []
     for i, b in enumerate(boxes):
-        kind = draw(st.sampled_from(["free", "equal", "adjacent", "tiny"]))
-        if kind == "free":
+        kind = draw(st.sampled_from(["adjacent", "adjacent", "adjacent3", "tiny", "free"] if edge else
+                                    ["free", "equal", "adjacent", "tiny", "adjacent3"]))
+        if kind == "adjacent3":
+            v = p1[i]
+            for _ in range(3):
+                v = math.nextafter(v, b[1] if p1[i] < b[1] else b[0])
+        elif kind == "free":
             v = place(b[0], b[1], draw(tpos))
         elif kind == "equal":
             v = p1[i]
@@ -96,7 +104,7 @@ def check_operator(case):
         op, boxes, case["p1"], case["p2"], case["prob"], case["eta"], case["it"], case["max_it"], case["pert"],
         case["seed"])
     random.seed(case["seed"])
-    for rep in range(6 if op == "sbx" else 3):
+    for rep in range(10 if op in ("sbx", "pm") else 3):
         with guard("operators"):
             if op == "sbx":
                 o = SimulatedBinaryCrossover(ps, case["prob"], case["eta"])
@@ -112,7 +120,7 @@ def check_operator(case):
         for k in kids:
             _check_child("operators", op, k, boxes, ctx)
     on_bound = any(x in b for x, b in zip(case["p1"], boxes)) or any(x in b for x, b in zip(case["p2"], boxes))
-    near = op == "sbx" and any(r in ("adjacent", "tiny", "equal") for r in case["rel"])
+    near = op == "sbx" and any(r in ("adjacent", "adjacent3", "tiny", "equal") for r in case["rel"])
     return {"nt": on_bound or near, "classes": [op, "on-bound" if on_bound else "interior"] + (
         ["coincident-parents"] if near else [])}
 
@@ -217,7 +225,15 @@ def run_cases(draw):
     fails = sorted(draw(st.sets(st.integers(0, 40), max_size=4)))
     prec = None
     if draw(st.integers(0, 3)) == 0:
-        prec = [draw(st.sampled_from([0.25, 0.1, 0.2, 0.05, 1e-3])) for _ in range(n)]
+        # a declared precision is a grid *inside* the box: steps coarser than a quarter of the width are a mis-declared
+        # problem (the rounded start design then lies outside the box and polynomial mutation, which assumes parents
+        # inside the box, produces complex numbers) and are not generated
+        prec = []
+        for b in boxes:
+            q = draw(st.sampled_from([0.25, 0.1, 0.2, 0.05, 1e-3]))
+            prec.append(q if q <= (b[1] - b[0]) / 4 else None)
+        if not any(prec):
+            prec = None
     return {"alg": draw(st.sampled_from(["NSGAII", "EpsMOEA", "OMOPSO", "SMPSO", "PSOGA"])), "boxes": boxes, "m": m,
             "N": draw(st.integers(2, 8)), "G": draw(st.integers(1, 4)), "seed": draw(st.integers(0, 2 ** 31)),
             "fails": fails if draw(st.booleans()) else [], "prec": prec}
@@ -253,7 +269,8 @@ def check_run(case):
     prec = case.get("prec")
     if prec:
         for p_, q_ in zip(ps, prec):
-            p_["precision"] = q_
+            if q_:
+                p_["precision"] = q_
     cs = [{"name": "f%d" % j, "criteria": "minimize"} for j in range(m)]
     prob = make_problem(ps, cs, ev)
     seed_all(case["seed"])
@@ -272,7 +289,7 @@ def check_run(case):
             raise Violation("runs", "%s:shape" % case["alg"], "objective received %r for %d parameters" % (v, n))
         for j_, (x, (lb, ub)) in enumerate(zip(v, boxes)):
             tol = 1e-12 + 4 * ulp(max(abs(lb), abs(ub)))
-            if prec:
+            if prec and prec[j_]:
                 tol = prec[j_] / 2 + 4 * ulp(max(abs(lb), abs(ub), prec[j_]))
             xf = float(x)
             if isinstance(x, complex) or xf != xf or not (lb - tol <= xf <= ub + tol):
